@@ -1,6 +1,9 @@
 package zv
 
 import (
+	"go/constant"
+	"go/token"
+	"go/types"
 	"strings"
 
 	"golang.org/x/tools/go/ssa"
@@ -66,27 +69,32 @@ func checkC17(c *Ctx) {
 	}
 	c.Check(okLoop, "R17.1", wr.String(), "iterates-to-empty", wr.Pos(), "the loop passes what writeLine returned back into writeLine while it is non-empty, starting from the parameter")
 	line := wl.Params[1]
-	idxD := "IndexByte(line, 10)"
+	w := wl.Params[0].Name()
+	sm := c17Split(c, wl)
+	if sm == nil {
+		c.Und("R17.1", wl.String(), "split", wl.Pos(), "cannot find how writeLine locates the first newline (bytes.IndexByte / bytes.Cut on the parameter)")
+		return
+	}
 	for k, r := range Returns(wl) {
 		v := RetVals(r)[0]
 		atoms := AtomStrings(Guards(r))
 		if IsNilConst(Strip(v)) {
 			// whole fragment buffered first
-			ok := containsS(atoms, idxD+" < 0")
+			ok := containsS(atoms, sm.notFound)
 			buffered := false
 			for _, call := range Calls(wl) {
-				if IsCallTo(call, "(*bytes.Buffer).Write") && call.Block() == r.Block() {
-					buffered = Desc(Args(call)[0]) == "w.buff" && Args(call)[1] == ssa.Value(line)
+				if IsCallTo(call, "(*bytes.Buffer).Write") && Dominates(call, r) && containsS(AtomStrings(Guards(call)), sm.notFound) {
+					buffered = Desc(Args(call)[0]) == w+".buff" && Args(call)[1] == ssa.Value(line)
 				}
 			}
 			c.Check(ok && buffered, "R17.1", wl.String(), "no-newline-buffers-all#"+itoa(k+1), r.Pos(), "without a newline the whole fragment is buffered and nothing remains")
 		} else {
-			ok := Desc(v) == "line[("+idxD+" + 1):]" && containsS(atoms, idxD+" >= 0")
-			c.Check(ok, "R17.1", wl.String(), "returns-strict-suffix#"+itoa(k+1), r.Pos(), "with a newline at idx ≥ 0 the remainder is line[idx+1:], strictly shorter (so the loop terminates) (%s)", Desc(v))
+			ok := sm.isTail(v) && containsS(atoms, sm.found)
+			c.Check(ok, "R17.1", wl.String(), "returns-strict-suffix#"+itoa(k+1), r.Pos(), "with a newline found the remainder is what follows it, strictly shorter (so the loop terminates) (%s; split by %s)", Desc(v), sm.how)
 		}
 	}
 	// ---------------- R17.2 ----------------
-	en := "Enabled(Core(w.Log), w.Level)"
+	en := "Enabled(Core(" + wr.Params[0].Name() + ".Log), " + wr.Params[0].Name() + ".Level)"
 	nG := 0
 	for _, call := range Calls(wr) {
 		f := CalleeFunc(call)
@@ -126,40 +134,70 @@ func checkC17(c *Ctx) {
 	for _, r := range Returns(cl) {
 		c.Check(Desc(RetVals(r)[0]) == "Sync(w)", "R17.3", cl.String(), "close-is-sync", r.Pos(), "Close delegates to Sync")
 	}
-	var logCall, reset ssa.Instruction
+	var logCall ssa.Instruction
+	fw := fl.Params[0].Name()
+	allow := fl.Params[1].Name()
+	isReset := func(i ssa.Instruction) bool {
+		call, ok := i.(ssa.CallInstruction)
+		return ok && IsCallTo(call, "(*bytes.Buffer).Reset") && Desc(Args(call)[0]) == fw+".buff"
+	}
+	nReset := 0
 	for _, call := range Calls(fl) {
 		if StaticCallee(call) == lg {
 			logCall = call
 		}
-		if IsCallTo(call, "(*bytes.Buffer).Reset") && Desc(Args(call)[0]) == "w.buff" {
-			reset = call
+		if isReset(call) {
+			nReset++
 		}
 	}
-	if logCall == nil || reset == nil {
+	if logCall == nil || nReset == 0 {
 		c.Bad("R17.3", fl.String(), "shape", fl.Pos(), "flush must log and reset")
 	} else {
-		ok, cex := AllDisjunctsHave(PathConds(logCall.Block()), func(s string) bool { return s == "allowEmpty" || s == "Len(w.buff) > 0" })
-		// and it is not skipped when the condition holds: the skip edge carries both negations
+		nonEmpty := func(s string) bool { return s == "Len("+fw+".buff) > 0" || s == "len(Bytes("+fw+".buff)) > 0" }
+		empty := func(s string) bool { return s == "Len("+fw+".buff) == 0" || s == "len(Bytes("+fw+".buff)) == 0" }
+		ok, cex := AllDisjunctsHave(PathConds(logCall.Block()), func(s string) bool { return s == allow || nonEmpty(s) })
+		// and it is not skipped when the condition holds: every edge that leaves the
+		// part of the function from which the log is still reachable carries both negations
+		lb := logCall.Block()
+		canReach := func(b *ssa.BasicBlock) bool {
+			return b == lb || ExistsPath(fl, AtBlock(b), func(i ssa.Instruction) bool { return i == logCall }, nil)
+		}
 		skipOK := true
-		rb := reset.Block()
-		for _, pr := range rb.Preds {
-			if pr == logCall.Block() || logCall.Block().Dominates(pr) {
+		var skipCex []string
+		for _, pr := range fl.Blocks {
+			if pr == lb || lb.Dominates(pr) || !canReach(pr) {
 				continue
 			}
-			var edge []string
-			if iff, isIf := pr.Instrs[len(pr.Instrs)-1].(*ssa.If); isIf {
-				edge = append(edge, AtomString(Atom{iff.Cond, pr.Succs[0] == rb}))
-			}
-			for _, conj := range PathConds(pr) {
-				all := append(append([]string{}, conj...), edge...)
-				if !(containsS(all, "!allowEmpty") && containsS(all, "Len(w.buff) == 0")) {
-					skipOK = false
+			for si, sc := range pr.Succs {
+				if canReach(sc) || lb.Dominates(sc) && sc != pr {
+					continue
+				}
+				var edge []string
+				if iff, isIf := pr.Instrs[len(pr.Instrs)-1].(*ssa.If); isIf {
+					edge = append(edge, AtomString(Atom{iff.Cond, si == 0}))
+				}
+				for _, conj := range PathConds(pr) {
+					all := append(append([]string{}, conj...), edge...)
+					hasE := false
+					for _, a := range all {
+						hasE = hasE || empty(a)
+					}
+					if !(containsS(all, "!"+allow) && hasE) {
+						skipOK = false
+						skipCex = all
+					}
 				}
 			}
 		}
-		c.Check(ok && skipOK, "R17.3", fl.String(), "logs-iff-allowed-or-nonempty", logCall.Pos(), "flush logs exactly when allowEmpty or the buffer is non-empty (counter-example %v)", cex)
-		c.Check(Desc(Args(logCall.(ssa.CallInstruction))[1]) == "Bytes(w.buff)", "R17.3", fl.String(), "logs-buffer", logCall.Pos(), "what is logged is the buffered line")
-		c.Check(mustPass(fl, func(i ssa.Instruction) bool { return i == reset }) && !ExistsPath(fl, reset, func(i ssa.Instruction) bool { return i == logCall }, nil), "R17.3", fl.String(), "always-resets-after", reset.Pos(), "the buffer is reset on every path, after the logging")
+		c.Check(ok && skipOK, "R17.3", fl.String(), "logs-iff-allowed-or-nonempty", logCall.Pos(), "flush logs exactly when allowEmpty or the buffer is non-empty (counter-examples %v %v)", cex, skipCex)
+		c.Check(Desc(Args(logCall.(ssa.CallInstruction))[1]) == "Bytes("+fw+".buff)", "R17.3", fl.String(), "logs-buffer", logCall.Pos(), "what is logged is the buffered line")
+		resetThenLog := false
+		for _, call := range Calls(fl) {
+			if isReset(call) && ExistsPath(fl, call, func(i ssa.Instruction) bool { return i == logCall }, nil) {
+				resetThenLog = true
+			}
+		}
+		c.Check(mustPass(fl, isReset) && !ExistsPath(fl, logCall, IsReturn, isReset) && !resetThenLog, "R17.3", fl.String(), "always-resets-after", logCall.Pos(), "the buffer is reset on every path, after the logging")
 	}
 	// ---------------- R17.4 ----------------
 	var direct, app, flushCall ssa.Instruction
@@ -169,18 +207,18 @@ func checkC17(c *Ctx) {
 			direct = call
 		case StaticCallee(call) == fl:
 			flushCall = call
-		case IsCallTo(call, "(*bytes.Buffer).Write") && containsS(AtomStrings(Guards(call)), idxD+" >= 0"):
+		case IsCallTo(call, "(*bytes.Buffer).Write") && containsS(AtomStrings(Guards(call)), sm.found):
 			app = call
 		}
 	}
 	if direct == nil || app == nil || flushCall == nil {
 		c.Bad("R17.4", wl.String(), "shape", wl.Pos(), "expected a direct log, an append and a flush in writeLine")
 	} else {
-		ok, cex := AllDisjunctsHave(PathConds(direct.Block()), func(s string) bool { return s == "Len(w.buff) == 0" })
-		c.Check(ok && Desc(Args(direct.(ssa.CallInstruction))[1]) == "line[:"+idxD+"]", "R17.4", wl.String(), "fast-path-only-when-empty", direct.Pos(), "the line is logged directly only when nothing is buffered (counter-example %v), and it is line[:idx]", cex)
-		c.Check(Dominates(app, flushCall) && Desc(Args(app.(ssa.CallInstruction))[1]) == "line[:"+idxD+"]" && containsS(AtomStrings(Guards(flushCall)), "Len(w.buff) > 0"), "R17.4", wl.String(), "append-before-flush", app.Pos(), "with buffered text the fragment up to the newline is appended first, then the whole line is flushed")
+		ok, cex := AllDisjunctsHave(PathConds(direct.Block()), func(s string) bool { return s == "Len("+w+".buff) == 0" })
+		c.Check(ok && sm.isHead(Args(direct.(ssa.CallInstruction))[1]), "R17.4", wl.String(), "fast-path-only-when-empty", direct.Pos(), "the line is logged directly only when nothing is buffered (counter-example %v), and it is the part before the newline", cex)
+		c.Check(Dominates(app, flushCall) && sm.isHead(Args(app.(ssa.CallInstruction))[1]) && Desc(Args(app.(ssa.CallInstruction))[0]) == w+".buff" && containsS(AtomStrings(Guards(flushCall)), "Len("+w+".buff) > 0"), "R17.4", wl.String(), "append-before-flush", app.Pos(), "with buffered text the fragment up to the newline is appended first, then the whole line is flushed")
 		// exactly one of the two on every newline path
-		_, t, _ := BranchOn(wl, idxD+" >= 0")
+		_, t, _ := BranchOn(wl, sm.found)
 		okOne := t != nil && !ExistsPath(wl, AtBlock(t), IsReturn, func(i ssa.Instruction) bool { return i == direct || i == flushCall })
 		c.Check(okOne, "R17.4", wl.String(), "newline-always-emits", wl.Pos(), "every newline leads to exactly one emission (direct log or flush)")
 	}
@@ -217,7 +255,142 @@ func checkC17(c *Ctx) {
 	for _, call := range Calls(lg) {
 		if IsCallTo(call, "(*go.uber.org/zap.Logger).Check") {
 			d := Desc(Args(call)[2])
-			c.Check(d == "conv[string](b)" && Desc(Args(call)[1]) == "w.Level", "R17.5", lg.String(), "message-is-copy", call.Pos(), "the message is string(b) at the writer's level (%s)", d)
+			c.Check(d == "conv[string]("+lg.Params[1].Name()+")" && Desc(Args(call)[1]) == lg.Params[0].Name()+".Level", "R17.5", lg.String(), "message-is-copy", call.Pos(), "the message is string(b) at the writer's level (%s)", d)
 		}
 	}
+}
+
+// c17SplitModel: how writeLine splits its fragment at the first newline.
+type c17SplitModel struct {
+	found, notFound string // control atoms
+	isHead, isTail  func(ssa.Value) bool
+	how             string
+}
+
+func c17Split(c *Ctx, wl *ssa.Function) *c17SplitModel {
+	line := wl.Params[1]
+	for _, call := range Calls(wl) {
+		cl, ok := call.(*ssa.Call)
+		if !ok {
+			continue
+		}
+		args := Args(cl)
+		switch {
+		case IsCallTo(cl, "bytes.IndexByte") && args[0] == ssa.Value(line):
+			if b, ok := constBytes(args[1]); !ok || len(b) != 1 || b[0] != '\n' {
+				continue
+			}
+			d := Desc(cl)
+			ln := line.Name()
+			return &c17SplitModel{
+				found: d + " >= 0", notFound: d + " < 0", how: d,
+				isHead: func(v ssa.Value) bool { return Desc(v) == ln+"[:"+d+"]" },
+				isTail: func(v ssa.Value) bool { return Desc(v) == ln+"[("+d+" + 1):]" },
+			}
+		case IsCallTo(cl, "bytes.Cut") && args[0] == ssa.Value(line):
+			if b, ok := c.constByteSlice(args[1]); !ok || string(b) != "\n" {
+				continue
+			}
+			ext := func(v ssa.Value, idx int) bool {
+				e, ok := Strip(v).(*ssa.Extract)
+				return ok && e.Tuple == ssa.Value(cl) && e.Index == idx
+			}
+			d := Desc(cl)
+			return &c17SplitModel{
+				found: d + "#2", notFound: "!" + d + "#2", how: d,
+				isHead: func(v ssa.Value) bool { return ext(v, 0) },
+				isTail: func(v ssa.Value) bool { return ext(v, 1) },
+			}
+		}
+	}
+	return nil
+}
+
+// constByteSlice: v is a []byte whose contents are known: a conversion of a
+// constant string, a literal of constants, or a package variable initialised
+// with one of these and never assigned or written through elsewhere.
+func (c *Ctx) constByteSlice(v ssa.Value) ([]byte, bool) {
+	v = Strip(v)
+	switch x := v.(type) {
+	case *ssa.Convert:
+		if k, ok := x.X.(*ssa.Const); ok && k.Value != nil && k.Value.Kind() == constant.String {
+			return []byte(constant.StringVal(k.Value)), true
+		}
+	case *ssa.Slice:
+		al, ok := x.X.(*ssa.Alloc)
+		if !ok || x.Low != nil || x.High != nil {
+			return nil, false
+		}
+		arr, ok := al.Type().Underlying().(*types.Pointer).Elem().Underlying().(*types.Array)
+		if !ok {
+			return nil, false
+		}
+		out := make([]byte, arr.Len())
+		for _, r := range *al.Referrers() {
+			switch y := r.(type) {
+			case *ssa.Slice:
+				if y != x {
+					return nil, false
+				}
+			case *ssa.IndexAddr:
+				k, ok := ConstInt(y.Index)
+				if !ok {
+					return nil, false
+				}
+				for _, rr := range *y.Referrers() {
+					st, ok := rr.(*ssa.Store)
+					if !ok || st.Addr != ssa.Value(y) {
+						return nil, false
+					}
+					bv, ok := ConstInt(st.Val)
+					if !ok {
+						return nil, false
+					}
+					out[k] = byte(bv)
+				}
+			default:
+				return nil, false
+			}
+		}
+		return out, true
+	case *ssa.UnOp:
+		g, ok := x.X.(*ssa.Global)
+		if !ok || x.Op != token.MUL {
+			return nil, false
+		}
+		var val ssa.Value
+		n := 0
+		bad := false
+		c.EachRootFunc(func(fn *ssa.Function) {
+			AllInstrs(fn, func(i ssa.Instruction) {
+				switch y := i.(type) {
+				case *ssa.Store:
+					if y.Addr == ssa.Value(g) {
+						n++
+						val = y.Val
+						if fn.Name() != "init" {
+							bad = true
+						}
+					}
+				case *ssa.UnOp:
+					// a load of the variable that is indexed for writing, or passed anywhere but as a read-only argument, is not tracked: require all loads to be call arguments of std functions or this same use
+					if y.X == ssa.Value(g) && y.Op == token.MUL {
+						for _, r := range *y.Referrers() {
+							if ia, ok := r.(*ssa.IndexAddr); ok {
+								for _, rr := range *ia.Referrers() {
+									if st, ok := rr.(*ssa.Store); ok && st.Addr == ssa.Value(ia) {
+										bad = true
+									}
+								}
+							}
+						}
+					}
+				}
+			})
+		})
+		if n == 1 && !bad {
+			return c.constByteSlice(val)
+		}
+	}
+	return nil, false
 }
